@@ -615,10 +615,14 @@ func (c *Ctx) Leg(leg string, f func()) {
 	f()
 }
 
-// ConfirmKnown replays every known finding of this property through the oracle
-// (shard 0 only) and records the ones that still fail with their signature.
+// ConfirmKnown replays the stored input of every known finding of this property through the oracle.
+// A finding that still fails with its signature is recorded (shard 0 reports it as KNOWN-FINDING).
+// A finding is identified by its input as well as by its signature: if the stored input still fails but
+// no longer under the recorded signature (e.g. the parser's complaint was reworded), the signatures it
+// now produces are treated as aliases of the known one, so a cosmetic change does not turn a listed
+// finding into an alarm. If the stored input no longer fails at all, nothing is printed or suppressed.
 func (c *Ctx) ConfirmKnown() {
-	if c.Shard != 0 || c.Prop.Oracle == nil {
+	if c.Prop.Oracle == nil {
 		return
 	}
 	for _, k := range c.known {
@@ -626,18 +630,30 @@ func (c *Ctx) ConfirmKnown() {
 			continue
 		}
 		cs := &Case{Property: k.Property, Leg: k.Leg, Entry: k.Entry, Input: k.Input, Aux: k.Aux}
-		hit := false
+		var ds []Discrepancy
 		func() {
 			defer func() { _ = recover() }()
-			for _, d := range c.Prop.Oracle(c, cs) {
-				if d.Sig == k.Sig {
-					hit = true
+			ds = c.Prop.Oracle(c, cs)
+		}()
+		hit := false
+		for _, d := range ds {
+			if d.Sig == k.Sig {
+				hit = true
+			}
+		}
+		alias := ""
+		if !hit && len(ds) > 0 {
+			for _, d := range ds {
+				if !c.knownSet[d.Sig] {
+					c.knownSet[d.Sig] = true
+					alias += " [now reported as: " + d.Sig + "]"
 				}
 			}
-		}()
-		if hit {
+			hit = alias != ""
+		}
+		if hit && c.Shard == 0 {
 			c.rep.KnownConfirmed = append(c.rep.KnownConfirmed,
-				fmt.Sprintf("property=%s sig=%q entry=%s input=%s what=%s", k.Property, k.Sig, k.Entry, strconv.Quote(k.Input), k.What))
+				fmt.Sprintf("property=%s sig=%q entry=%s input=%s what=%s%s", k.Property, k.Sig, k.Entry, strconv.Quote(k.Input), k.What, alias))
 		}
 	}
 }
